@@ -214,7 +214,7 @@ def make_judges(ctx):
 def floors(tier):
     return [('way', w) for w in ('out', 'out_like', 'same', 'largest', 'smallest', 'same+const')] + [('method', 'raw'), ('method', 'repr')] + \
            [('unary', u) for u in ('__neg__', '__pos__', '__abs__')] + [('unary-config',)] + \
-           [('wide-target-at-the-limit', m) for m in ('raw', 'repr')] + [('integer-operand-large-constant', m) for m in ('raw', 'repr')] + [('element-operands-coarser-target', m) for m in ('raw', 'repr')]
+           [('wide-target-at-the-limit', m) for m in ('raw', 'repr')] + [('integer-operand-large-constant', m) for m in ('raw', 'repr')] + [('element-operands-coarser-target', m) for m in ('raw', 'repr')] + [('constant-carriers-and-reuse', m) for m in ('raw', 'repr')]
 
 
 # ------------------------------------------------------------------------------------------ workload
@@ -381,6 +381,31 @@ def run_case(case, ctx):
             x.config.const_op_sizing = csz
             _try(lambda: oper(x, cc))
             _try(lambda: oper(cc, x))
+    # 3b. constants carried by narrow NumPy integers (their shift to the operand's fraction length must not happen in the carrier's own type), and the SAME
+    #     constant used again after the operand's modes were changed in place (the constant is quantized under the modes of that moment)
+    if (i // 12) % 4 == 3:
+        ci_ = rng.randint(-100, 100)
+        for tp_ in (np.int8, np.int16, np.uint8, np.int32):
+            if tp_ is np.uint8 and ci_ < 0:
+                continue
+            for pol in ('same', 'best'):
+                x = mkx()
+                x.config.op_input_size = pol
+                _try(lambda: oper(x, tp_(ci_)))
+                _try(lambda: oper(tp_(ci_), x))
+        cq_ = float(F(rng.randint(-400, 400) * 2 + 1, 128))        # (seven fraction bits: not representable in most operand formats)
+        x = mkx()
+        x.config.op_input_size = 'same'
+        x.config.const_op_sizing = rng.choice(['same', 'largest', 'optimal'])
+        _try(lambda: oper(x, cq_))
+        _try(lambda: oper(cq_, x))
+        (r2_, o2_) = m[3] if len(m) > 3 else ('ceil', 'wrap')
+        x.config.rounding, x.config.overflow = r2_, o2_
+        _try(lambda: oper(x, cq_))
+        _try(lambda: oper(cq_, x))
+        x.config.rounding = 'floor' if r2_ != 'floor' else 'ceil'
+        _try(lambda: oper(x, cq_))
+        ctx.floor_hit(('constant-carriers-and-reuse', method))
     # 4. targets of 54..63 bits in which the exact result lands exactly one code above the upper limit (limits that are not doubles), both methods
     if (i // 12) % 4 == 0:
         wt = rng.randint(54, 63)
